@@ -3,7 +3,7 @@
   machine `Gedcom.Cache.step` under the flags regenerated from the Go source.
 
     c13 <forest> ops <op> ; <op> ; …        (flags of the current tree)
-    c13f <20 bits> <forest> ops …           (explicit flags, for counterexample replay)
+    c13f <21 bits> <forest> ops …           (explicit flags, for counterexample replay)
 
   Nodes are addressed by position (root index, child indices) in the *current* document, so the
   two sides never exchange ids.  Observations name nodes by position too: `0.2.1`, `n` = nil,
@@ -156,6 +156,11 @@ def runOp (fl : Flags) (s : St) (toks : List String) : St × String :=
   | "dat" :: rest => match parseForest ("1" :: rest) with
     | some ([t], []) => atomicShow (docAddTreeOps s.heap.length t)
     | _ => (s, "bad-op")
+  | "dac" :: rest => match parseForest ("1" :: rest) with
+    -- a record decoded from another text and copied with DeepCopy (both reset the node cache), then
+    -- handed to the generic Document.AddNode
+    | some ([t], []) => atomicShow (Op.foreign :: docAddTreeOps s.heap.length t)
+    | _ => (s, "bad-op")
   | "aic" :: p :: rest => match fromHex p, parseForest rest with
     | some p, some (ks, []) => atomicShow (addIndividualWithOps s.heap.length p ks)
     | _, _ => (s, "bad-op")
@@ -253,8 +258,8 @@ def runHistory (fl : Flags) (toks : List String) : String :=
 
 def flagsOfBits (bits : String) : Option Flags :=
   match bits.toList.map (· == '1') with
-  | [a, b, c, d, e, f, g, h, i, j, k, l, m, n, o, p, q, r, t, u] =>
-    some ⟨a, b, c, d, e, f, g, h, i, j, k, l, m, n, o, p, q, r, t, u⟩
+  | [a, b, c, d, e, f, g, h, i, j, k, l, m, n, o, p, q, r, t, u, v] =>
+    some ⟨a, b, c, d, e, f, g, h, i, j, k, l, m, n, o, p, q, r, t, u, v⟩
   | _ => none
 
 /-- requests about cache coherence (C13) -/
@@ -275,7 +280,7 @@ def handleCache (cmd : String) (rest : List String) : Option String :=
       f.familyAddResetsCaches, f.familyDeleteResetsCaches, f.familySetNodesResetsCaches,
       f.setHusbandPointerClearsCache, f.setWifePointerClearsCache, f.deleteNodesWithTagCopies,
       f.warningsReadOnly, f.docSetNodesRebuildsPointers, f.docSetNodesClearsFamilies,
-      f.docSetNodesResetsIndividuals].map fun b => if b then '1' else '0'))
+      f.docSetNodesResetsIndividuals, f.docAddBumpsLinks].map fun b => if b then '1' else '0'))
   | _ => none
 
 end Driver
